@@ -455,11 +455,15 @@ func selfExe() string {
 
 func master() int {
 	t0 := time.Now()
-	sim := pickSim()
-	if sim == nil {
+	simList := SimsFor(*fProp)
+	if *fSimName != "" {
+		simList = []Sim{SimByName(*fSimName)}
+	}
+	if len(simList) == 0 || simList[0] == nil {
 		fmt.Fprintf(os.Stderr, "no simulation registered for property %q (registered: %v)\n", *fProp, RegisteredProps())
 		return 2
 	}
+	sim := simList[0]
 	nw := *fWorkers
 	if nw <= 0 {
 		nw = runtime.NumCPU()
@@ -471,89 +475,106 @@ func master() int {
 		return 2
 	}
 	defer os.RemoveAll(tmp)
-	fmt.Printf("check property=%s sim=%s tier=%s seed=%d workers=%d budget=%.0fs\n", *fProp, sim.Name(), *fTier, *fSeed, nw, budgetSeconds())
-
-	outs := make([]*WorkerOut, nw)
-	errs := make([]string, nw)
-	var wg sync.WaitGroup
-	for w := 0; w < nw; w++ {
-		wg.Add(1)
-		go func(w int) {
-			defer wg.Done()
-			of := filepath.Join(tmp, fmt.Sprintf("w%d.json", w))
-			cmd := exec.Command(selfExe(), "-vmode=worker", "-prop="+*fProp, "-tier="+*fTier,
-				"-seed="+strconv.FormatUint(*fSeed, 10), "-windex="+strconv.Itoa(w),
-				"-budget="+fmt.Sprint(budgetSeconds()), "-runs="+strconv.Itoa(*fRuns), "-out="+of, "-sim="+*fSimName)
-			cmd.Env = append(os.Environ(), "GOMAXPROCS=2")
-			var eb bytes.Buffer
-			cmd.Stderr = &eb
-			cmd.Stdout = &eb
-			// Real-time watchdog (outside every bubble): a worker whose current
-			// seed has not changed for hangLimit is looping inside the code
-			// under test (or blocked in an uninstrumented primitive). It is
-			// killed and the seed reported as a "hang" violation with its plan.
-			hung := ""
-			if err := cmd.Start(); err != nil {
-				errs[w] = err.Error()
-				return
-			}
-			doneCh := make(chan error, 1)
-			go func() { doneCh <- cmd.Wait() }()
-			var err error
-			lastCur, lastChange := "", time.Now()
-		wait:
-			for {
-				select {
-				case err = <-doneCh:
-					break wait
-				case <-time.After(2 * time.Second):
-					cur, _ := os.ReadFile(of + ".cur")
-					if string(cur) != lastCur {
-						lastCur, lastChange = string(cur), time.Now()
-					} else if lastCur != "" && time.Since(lastChange) > hangLimit() {
-						hung = strings.TrimSpace(lastCur)
-						_ = cmd.Process.Kill()
-						err = <-doneCh
-						break wait
-					}
-				}
-			}
-			if hung != "" {
-				if sd, perr := strconv.ParseUint(hung, 10, 64); perr == nil {
-					crashMu.Lock()
-					crashes = append(crashes, crashRec{seed: sd, site: "", trace: fmt.Sprintf("no progress for %v of real time while executing this plan; worker killed", hangLimit())})
-					crashMu.Unlock()
-				}
-				return
-			}
-			b, rerr := os.ReadFile(of)
-			if rerr != nil {
-				cur, _ := os.ReadFile(of + ".cur")
-				seedStr := strings.TrimSpace(string(cur))
-				// A Go panic inside btcwallet / bbolt code on a goroutine the
-				// runner cannot recover kills the worker. That is a loud
-				// failure of the code under test: turn it into a violation
-				// whose replay file is the plan of the seed that was running.
-				if site := crashSite(eb.String()); site != "" && seedStr != "" {
-					if sd, perr := strconv.ParseUint(seedStr, 10, 64); perr == nil {
-						crashMu.Lock()
-						crashes = append(crashes, crashRec{seed: sd, site: site, trace: tail(eb.String(), 40)})
-						crashMu.Unlock()
-						return
-					}
-				}
-				errs[w] = fmt.Sprintf("worker %d died (err=%v) while running seed %s\n%s", w, err, seedStr, tail(eb.String(), 60))
-				return
-			}
-			o := &WorkerOut{}
-			if jerr := json.Unmarshal(b, o); jerr != nil {
-				errs[w] = "worker output: " + jerr.Error()
-				return
-			}
-			outs[w] = o
-		}(w)
+	var simNames []string
+	for _, s := range simList {
+		simNames = append(simNames, s.Name())
 	}
-	wg.Wait()
+	perSim := budgetSeconds() / float64(len(simList))
+	fmt.Printf("check property=%s sim=%s tier=%s seed=%d workers=%d budget=%.0fs\n", *fProp, strings.Join(simNames, "+"), *fTier, *fSeed, nw, budgetSeconds())
+
+	var outs []*WorkerOut
+	var errs []string
+	var outMu sync.Mutex
+	for _, curSim := range simList {
+		curSim := curSim
+		var wg sync.WaitGroup
+		for w := 0; w < nw; w++ {
+			wg.Add(1)
+			go func(w int) {
+				defer wg.Done()
+				of := filepath.Join(tmp, fmt.Sprintf("%s-w%d.json", curSim.Name(), w))
+				cmd := exec.Command(selfExe(), "-vmode=worker", "-prop="+*fProp, "-tier="+*fTier,
+					"-seed="+strconv.FormatUint(*fSeed, 10), "-windex="+strconv.Itoa(w),
+					"-budget="+fmt.Sprint(perSim), "-runs="+strconv.Itoa(*fRuns), "-out="+of, "-sim="+curSim.Name())
+				cmd.Env = append(os.Environ(), "GOMAXPROCS=2")
+				var eb bytes.Buffer
+				cmd.Stderr = &eb
+				cmd.Stdout = &eb
+				// Real-time watchdog (outside every bubble): a worker whose current
+				// seed has not changed for hangLimit is looping inside the code
+				// under test (or blocked in an uninstrumented primitive). It is
+				// killed and the seed reported as a "hang" violation with its plan.
+				hung := ""
+				if err := cmd.Start(); err != nil {
+					outMu.Lock()
+					errs = append(errs, err.Error())
+					outMu.Unlock()
+					return
+				}
+				doneCh := make(chan error, 1)
+				go func() { doneCh <- cmd.Wait() }()
+				var err error
+				lastCur, lastChange := "", time.Now()
+			wait:
+				for {
+					select {
+					case err = <-doneCh:
+						break wait
+					case <-time.After(2 * time.Second):
+						cur, _ := os.ReadFile(of + ".cur")
+						if string(cur) != lastCur {
+							lastCur, lastChange = string(cur), time.Now()
+						} else if lastCur != "" && time.Since(lastChange) > hangLimit() {
+							hung = strings.TrimSpace(lastCur)
+							_ = cmd.Process.Kill()
+							err = <-doneCh
+							break wait
+						}
+					}
+				}
+				if hung != "" {
+					if sd, perr := strconv.ParseUint(hung, 10, 64); perr == nil {
+						crashMu.Lock()
+						crashes = append(crashes, crashRec{seed: sd, site: "", trace: fmt.Sprintf("no progress for %v of real time while executing this plan; worker killed", hangLimit())})
+						crashMu.Unlock()
+					}
+					return
+				}
+				b, rerr := os.ReadFile(of)
+				if rerr != nil {
+					cur, _ := os.ReadFile(of + ".cur")
+					seedStr := strings.TrimSpace(string(cur))
+					// A Go panic inside btcwallet / bbolt code on a goroutine the
+					// runner cannot recover kills the worker. That is a loud
+					// failure of the code under test: turn it into a violation
+					// whose replay file is the plan of the seed that was running.
+					if site := crashSite(eb.String()); site != "" && seedStr != "" {
+						if sd, perr := strconv.ParseUint(seedStr, 10, 64); perr == nil {
+							crashMu.Lock()
+							crashes = append(crashes, crashRec{sim: curSim.Name(), seed: sd, site: site, trace: tail(eb.String(), 40)})
+							crashMu.Unlock()
+							return
+						}
+					}
+					outMu.Lock()
+					errs = append(errs, fmt.Sprintf("worker %d of %s died (err=%v) while running seed %s\n%s", w, curSim.Name(), err, seedStr, tail(eb.String(), 60)))
+					outMu.Unlock()
+					return
+				}
+				o := &WorkerOut{}
+				if jerr := json.Unmarshal(b, o); jerr != nil {
+					outMu.Lock()
+					errs = append(errs, "worker output: "+jerr.Error())
+					outMu.Unlock()
+					return
+				}
+				outMu.Lock()
+				outs = append(outs, o)
+				outMu.Unlock()
+			}(w)
+		}
+		wg.Wait()
+	}
 
 	infra := false
 	for _, e := range errs {
@@ -611,8 +632,12 @@ func master() int {
 
 	// crashed workers
 	for _, c := range crashes {
-		plan := sim.Generate(*fProp, *fTier, c.seed)
-		plan.Sim, plan.Prop, plan.Tier, plan.Seed = sim.Name(), *fProp, *fTier, c.seed
+		cs := SimByName(c.sim)
+		if cs == nil {
+			cs = sim
+		}
+		plan := cs.Generate(*fProp, *fTier, c.seed)
+		plan.Sim, plan.Prop, plan.Tier, plan.Seed = cs.Name(), *fProp, *fTier, c.seed
 		sig := "crash:" + c.site
 		msg := "the process died with a Go panic inside the code under test while executing this plan:\n" + c.trace
 		if c.site == "" {
@@ -737,8 +762,10 @@ func master() int {
 	rule := "cases: one Plan (operation list + fault list + schedule seed + swarm configuration) per seed, generated from a single PRNG; " +
 		"executed against the real btcwallet code in a synctest bubble with the oracle evaluated after every operation. " +
 		fmt.Sprintf("non-trivial: the run executed at least %d effective (non-skipped) operations; distinct: different hash of (abstract model state after every operation, operation outcomes).", MinEffOps)
-	if r, ok := sim.(interface{ Rule(prop string) string }); ok {
-		rule = r.Rule(*fProp) + " " + rule
+	for i := len(simList) - 1; i >= 0; i-- {
+		if r, ok := simList[i].(interface{ Rule(prop string) string }); ok {
+			rule = "[" + simList[i].Name() + "] " + r.Rule(*fProp) + " " + rule
+		}
 	}
 	var sampleVals []any
 	for i, s := range samples {
@@ -760,21 +787,32 @@ func master() int {
 		"violations_found":    violSumm,
 		"exhaustive":          false,
 	}
-	if c, ok := sim.(interface{ Components() map[string][]string }); ok {
-		cov["components"] = c.Components()
+	comps := map[string]any{}
+	expl := ""
+	for _, s := range simList {
+		if c, ok := s.(interface{ Components() map[string][]string }); ok {
+			comps[s.Name()] = c.Components()
+		}
+		if e, ok := s.(interface {
+			Explain(prop string, stats map[string]int64) string
+		}); ok {
+			expl += "[" + s.Name() + "] " + e.Explain(*fProp, stats) + " "
+		}
 	}
-	if e, ok := sim.(interface {
-		Explain(prop string, stats map[string]int64) string
-	}); ok {
-		cov["explanation"] = e.Explain(*fProp, stats)
+	if len(comps) > 0 {
+		cov["components"] = comps
 	}
+	if expl != "" {
+		cov["explanation"] = strings.TrimSpace(expl)
+	}
+	cov["simulations"] = simNames
 	ev := map[string]any{
 		"property_id": *fProp,
 		"tier":        *fTier,
 		"seed":        *fSeed,
 		"level":       level,
 		"coverage":    cov,
-		"assumptions": assumptions(sim),
+		"assumptions": assumptionsAll(simList),
 		"wall_s":      wall,
 		"violations":  newViol,
 	}
@@ -845,6 +883,7 @@ func hangLimit() time.Duration {
 }
 
 type crashRec struct {
+	sim   string
 	seed  uint64
 	site  string
 	trace string
@@ -870,6 +909,20 @@ func crashSite(out string) string {
 		return ""
 	}
 	return site
+}
+
+func assumptionsAll(l []Sim) []string {
+	seen := map[string]bool{}
+	var out []string
+	for _, s := range l {
+		for _, a := range assumptions(s) {
+			if !seen[a] {
+				seen[a] = true
+				out = append(out, a)
+			}
+		}
+	}
+	return out
 }
 
 func assumptions(sim Sim) []string {
